@@ -388,7 +388,10 @@ def _random_access(repo, L, fi, rule="R6"):
             raise AnalysisError(f"sequence_bytes: no feasible path in case '{case}'")
         n_cases += 1
         base_case = case
+        per_path_new = []
+        f_mark0, o_mark0 = len(L.findings), len(L.obligations)
         for pi, r in enumerate(finals):
+          f_mark = len(L.findings)
           case = base_case if len(finals) == 1 else f"{base_case} / path {pi + 1} of {len(finals)} (the code splits on a condition the case does not decide)"
           if True:
             seeks = [e for e in r.effects if e[0] == "seek"]
@@ -460,12 +463,19 @@ def _random_access(repo, L, fi, rule="R6"):
                     okrel = okrel and len(a) == 2 and as_lin(a[0]) == MLL - RPL and as_lin(a[1]) == Lin.const(1)
                 except NotNumeric:
                     okrel = False
-            if case != "single-line":
+            if base_case != "single-line":
                 L.check(okrel and len(rel) >= 2, rule, f"{sb.short}[{case}]:terminators", "line terminators skipped by relative seeks of (max_line_length − residues_per_line)", f"relative seeks {[repr(e[2][1]) for e in rel]} do not skip exactly one line terminator after each line read", sb.loc())
                 # order: read, seek, (read, seek)*, [read]
                 seq = [e[0] for e in r.effects if e[0] in ("read", "seek")][1:]
                 pat_ok = seq[:2] == ["read", "seek"] and all(seq[i] != seq[i + 1] for i in range(len(seq) - 1))
                 L.check(pat_ok, rule, f"{sb.short}[{case}]:order", "reads and terminator skips alternate", f"access pattern {seq} does not alternate line reads and terminator skips", sb.loc())
+          per_path_new.append(len(L.findings) - f_mark)
+        if len(finals) > 1 and any(per_path_new) and not all(per_path_new):
+            # the function branches on something this case does not determine (a flag parameter, remembered state): some of those
+            # paths do the documented seek/read sequence and some do not -- which of them run in this case is not decided here
+            del L.findings[f_mark0:]
+            del L.obligations[o_mark0:]
+            raise AnalysisError(f"{sb.short}: in the case '{base_case}' the code branches on a condition the case does not decide and only {sum(1 for x in per_path_new if not x)} of {len(finals)} branches perform the documented seek/read sequence: no verdict")
         results.append(base_case)
     L.floor(rule, "random-access cases", n_cases, 3)
     L.trust("division axioms: x == d·⌊x/d⌋ + x mod d ; ⌊(e−1)/d⌋ == ⌊e/d⌋ − [e mod d == 0]")
